@@ -206,11 +206,12 @@ theorem downsample_run (divFs : ρ → Nat → ρ) (twoD : Bool) (q : Nat) (hq :
       simpa using this
 
 /-- what one `send` does to `decimate` (after its first chunk) on a stream -/
-theorem decimateStep_stream (m : Mealy α β S) (zi : S) (divFs : ρ → Nat → ρ) (q : Nat) (hq : 0 < q)
+theorem decimateStep_stream (m : Mealy α β S) (lf : S → List α → List β × S) (hlf : LfilterIs lf m)
+    (zi : S) (divFs : ρ → Nat → ρ) (q : Nat) (hq : 0 < q)
     (ann : Ann ρ χ μ) (c : List α) (r : List β) (s t : Int) (zf : S) (rem : Option (PD β ρ χ μ))
     (hrem : RemIs rem r s ann) :
     ∃ (rem' : Option (PD β ρ χ μ)),
-      decimateStep m zi divFs q (some { zf := zf, rem := rem, s0 := t }) { data := c, s0 := s, ann := ann }
+      decimateStep lf zi divFs q (some { zf := zf, rem := rem, s0 := t }) { data := c, s0 := s, ann := ann }
         = .ok (if (dsRes divFs q ann (r ++ (m.run zf c).1) t).len ≠ 0
                 then [dsRes divFs q ann (r ++ (m.run zf c).1) t] else [],
                some { zf := (m.run zf c).2, rem := rem',
@@ -222,14 +223,15 @@ theorem decimateStep_stream (m : Mealy α β S) (zi : S) (divFs : ρ → Nat →
   refine ⟨rem', ?_, hrem'.imp id id⟩
   unfold decimateStep
   rw [if_neg (Nat.ne_of_gt hq)]
-  simp only [PD.withData, catOpt_stream hrem (m.run zf c).1, hsplit, dsRes]
+  simp only [lfGuard_eq hlf, PD.withData, catOpt_stream hrem (m.run zf c).1, hsplit, dsRes]
   rfl
 
-theorem decimate_run (m : Mealy α β S) (zi : S) (divFs : ρ → Nat → ρ) (q : Nat) (hq : 0 < q)
+theorem decimate_run (m : Mealy α β S) (lf : S → List α → List β × S) (hlf : LfilterIs lf m)
+    (zi : S) (divFs : ρ → Nat → ρ) (q : Nat) (hq : 0 < q)
     (ann : Ann ρ χ μ) :
     ∀ (cs : List (List α)) (r : List β) (s t : Int) (zf : S) (rem : Option (PD β ρ χ μ)),
     RemIs rem r s ann → r.length < q →
-    ∃ bs, outputs (runStage (decimateStep m zi divFs q) (some { zf := zf, rem := rem, s0 := t })
+    ∃ bs, outputs (runStage (decimateStep lf zi divFs q) (some { zf := zf, rem := rem, s0 := t })
         (stream ann s cs)) = .ok bs
       ∧ Emits bs (stride q ((r ++ (m.run zf cs.flatten).1).take ((r.length + cs.flatten.length) / q * q))) 1 t
           { ann with fs := divFs ann.fs q } := by
@@ -245,7 +247,7 @@ theorem decimate_run (m : Mealy α β S) (zi : S) (divFs : ρ → Nat → ρ) (q
   | cons c cs ih =>
     intro r s t zf rem hrem hr
     rw [stream_cons]
-    obtain ⟨rem', hstep, hrem'⟩ := decimateStep_stream m zi divFs q hq ann c r s t zf rem hrem
+    obtain ⟨rem', hstep, hrem'⟩ := decimateStep_stream m lf hlf zi divFs q hq ann c r s t zf rem hrem
     have hsplit := stride_take_split q hq (r ++ (m.run zf c).1) (m.run (m.run zf c).2 cs.flatten).1
     have hassoc : r ++ (m.run zf (c :: cs).flatten).1
         = (r ++ (m.run zf c).1) ++ (m.run (m.run zf c).2 cs.flatten).1 := by
